@@ -27,6 +27,9 @@ FULL = gen.profile(
   tendon_spatial=0.3,
   actuators=3,
   act_ball=False,
+  act_trn=("joint", "tendon", "site", "jointinparent", "body", "slidercrank"),
+  act_kinds=("motor", "position", "velocity", "general", "damper", "intvelocity"),
+  p_adhesion=0.2,
   sensors=4,
   sensor_kinds=("jointpos", "jointvel", "framepos", "framequat", "framelinvel", "subtreecom", "accelerometer", "gyro", "touch", "actuatorfrc", "tendonpos"),
   cones=("pyramidal", "elliptic"),
@@ -42,6 +45,8 @@ FULL = gen.profile(
 
 PROFILES = {
   "full": FULL,
+  # one tree with > 64 dofs: sparse LDL factorisation levels, sparse Jacobian
+  "bigtree": gen.profile(nbody=(2, 4), big_tree=66, jacobians=("sparse",), p_limit=0.5, p_frictionloss=0.3, equality=1, eq_kinds=("joint", "connect"), solvers=("Newton", "CG"), p_armature=0.6),
   "free": gen.profile(
     nbody=(3, 7), collide=True, contact_rich=True, p_plane=1.0, p_free=1.0, p_branch=0.0, condims=(3, 4, 6, 1), cones=("pyramidal", "elliptic"), solvers=("Newton", "CG"), jacobians=("dense", "sparse")
   ),
